@@ -352,15 +352,16 @@ where
 
         let volume_idx = data.get_volume_by_id(volume)?;
 
-        match &mut data.open_volumes[volume_idx].volume_type {
-            VolumeType::Fat(fat) => {
-                fat.update_info_sector(&mut data.block_cache)?;
-            }
-        }
+        let update_result = match &mut data.open_volumes[volume_idx].volume_type {
+            VolumeType::Fat(fat) => fat.update_info_sector(&mut data.block_cache),
+        };
 
+        // Like `close_file`, give the slot up even if that write failed: the
+        // `Volume` wrapper is consumed by `close()` (and `Drop` cannot report
+        // anything), so nobody could ever close this volume again.
         data.open_volumes.swap_remove(volume_idx);
 
-        Ok(())
+        update_result
     }
 
     /// Look in a directory for a named file.
